@@ -7,6 +7,11 @@ import concurrent.futures, json, os, subprocess
 import common, ks
 
 
+# every behaviour is replayed twice: with segments nobody fills, and with wal.SegmentSizeBytes = 1 so that every Save that
+# writes ends with a segment cut (file names carry the index after the last entry: Open at a snapshot picks files by name)
+SEGSIZES = "262144,1"
+
+
 def run(tier, verdict, prop, cov, nproc=8, as_observed=None):
     """as_observed="save_first": B3 - the real Ready loop was SEEN to make the hard state of a snapshot-carrying Ready durable
     before the snapshot; the model is instantiated with that order (MC_Recover_savefirst.cfg, no invariants: it violates
@@ -40,7 +45,31 @@ def run(tier, verdict, prop, cov, nproc=8, as_observed=None):
     return _replay(tier, verdict, prop, cov, nproc, d, scen, n[0], res, {"weakened_variant_violates": weak.violated})
 
 
-def _replay(tier, verdict, prop, cov, nproc, d, scen, total, res, extra, key="recover_model"):
+def run_snaps(tier, verdict, prop, cov, nproc=8):
+    """The snapshot-heavy instance (one term, up to four Readys, appends of up to four entries): local snapshots behind the
+    last entry, commit-only saves and further snapshots in every order, replayed with a segment cut at every Save."""
+    d = common.scratch("recover-snaps-")
+    scen = os.path.join(d, "scen.ndjson")
+    n = [0]
+    fh = open(scen, "w")
+
+    def on_line(line):
+        if line.startswith('"RSCEN '):
+            r = json.loads(json.loads(line)[6:])
+            fh.write(json.dumps({"id": n[0], "steps": r["steps"]}) + "\n")
+            n[0] += 1
+            return True
+        return False
+
+    res = common.run_tlc("MC_Recover", cfg="MC_Recover_snaps.cfg", workers=6, heap="4g", timeout=1200, line_cb=on_line)
+    fh.close()
+    common.tlc_ok(res, "MC_Recover_snaps.cfg")
+    quick = tier == "quick"
+    return _replay(tier, verdict, prop, cov, nproc, d, scen, n[0], res, {"segment_sizes": "1" if quick else SEGSIZES, "min_wal_snapshots": 2 if quick else 1},
+                   key="recover_model_snapshots", segsizes="1" if quick else SEGSIZES, minsnaps=2 if quick else 1)
+
+
+def _replay(tier, verdict, prop, cov, nproc, d, scen, total, res, extra, key="recover_model", segsizes=None, minsnaps=0):
     tool = ks.build_tool("recoversim")
     chunk = (total + nproc - 1) // nproc
     out = dict({"tlc_states": res.distinct, "tlc_transitions": res.generated, "behaviours": total, "replayed": 0, "recoveries_compared": 0,
@@ -52,7 +81,7 @@ def _replay(tier, verdict, prop, cov, nproc, d, scen, total, res, extra, key="re
             return None
         work = os.path.join(d, "w%d" % i)
         os.makedirs(work)
-        return subprocess.run([tool, "run", "-scen", scen, "-work", work, "-lo", str(lo), "-hi", str(hi)], stdout=subprocess.PIPE, stderr=subprocess.PIPE,
+        return subprocess.run([tool, "run", "-scen", scen, "-work", work, "-lo", str(lo), "-hi", str(hi), "-segsizes", segsizes or SEGSIZES, "-minsnaps", str(minsnaps)], stdout=subprocess.PIPE, stderr=subprocess.PIPE,
                               timeout=3000, env=common.env())
 
     seen = set()
@@ -87,10 +116,10 @@ def _replay(tier, verdict, prop, cov, nproc, d, scen, total, res, extra, key="re
                         f["detail"] = "; ".join(why)
                     last_ops = [s["op"] for s in f["steps"] if s["op"] not in ("recover",)][-4:]
                     sig = {"branch": "recover." + f["kind"], "kind": f["kind"], "detail": "/".join(last_ops)}
-                    key = json.dumps(sig)
-                    if key in seen or len(seen) > 12:
+                    sk = json.dumps(sig)
+                    if sk in seen or len(seen) > 12:
                         continue
-                    seen.add(key)
+                    seen.add(sk)
                     steps = " ; ".join(_show(s) for s in f["steps"])
                     verdict.report(sig, f, what="node-level recovery (real wal + snap directories, loadSnapshot + replayWAL): after [%s] %s; model expects %s, recovered %s" % (
                         steps, f["detail"][:300], json.dumps(f.get("expected")), json.dumps(f.get("got"))))
@@ -98,7 +127,7 @@ def _replay(tier, verdict, prop, cov, nproc, d, scen, total, res, extra, key="re
                 common.die_infra("recoversim failed (rc=%s): %s" % (p.returncode, p.stderr.decode("utf-8", "replace")[-1500:]))
             for k in ("replayed", "recoveries_compared", "not_realisable_by_process_kill"):
                 out[k] += summ[k]
-    if out.get("divergences") and not verdict.violations and key == "recover_model":
+    if out.get("divergences") and not verdict.violations and key in ("recover_model", "recover_model_snapshots"):
         common.die_infra("recovery diverges from Recover.tla in %d behaviours without violating a clause of the property (see DIVERGENCE lines)" % out["divergences"])
     cov[key] = out
     cov["states"] = cov.get("states", 0) + res.distinct
